@@ -41,7 +41,61 @@ fn dump(lm: &LockManager) -> Value {
     json!({"locks": locks, "tx_locks": txl})
 }
 
+
+/// K13: one process takes locks and serialises its lock table; a freshly started process restores it and locks another key.
+/// Each phase runs in its own child process of this driver so that the process-wide handle counter starts from scratch.
+pub fn restart_phase(phase: &str, file: &str, nlocks: u64) -> Value {
+    match phase {
+        "A" => {
+            let lm = LockManager::new();
+            let mut handles = vec![];
+            for i in 0..nlocks {
+                match lm.try_lock(100 + i, &[format!("old{i}")]) { Ok(h) => handles.push(h), Err(t) => return json!({"error": format!("phase A conflict with {t}")}) }
+            }
+            let bytes = bitcode::serialize(&lm.to_serializable()).unwrap_or_default();
+            if let Err(e) = std::fs::write(file, bytes) { return json!({"error": e.to_string()}); }
+            json!({"handles": handles})
+        },
+        _ => {
+            let bytes = match std::fs::read(file) { Ok(b) => b, Err(e) => return json!({"error": e.to_string()}) };
+            let state: SerializableLockState = match bitcode::deserialize(&bytes) { Ok(s) => s, Err(e) => return json!({"error": format!("{e:?}")}) };
+            let lm = LockManager::from_serializable(state);
+            let held_before: Vec<bool> = (0..nlocks).map(|i| lm.lock_holder(&format!("old{i}")) == Some(100 + i)).collect();
+            let new_handle = match lm.try_lock(999, &["fresh-key".to_string()]) { Ok(h) => h, Err(t) => return json!({"error": format!("phase B conflict with {t}")}) };
+            // the new transaction finishes: its locks are released by handle
+            lm.release_by_handle(new_handle);
+            let held_after: Vec<bool> = (0..nlocks).map(|i| lm.lock_holder(&format!("old{i}")) == Some(100 + i)).collect();
+            json!({"new_handle": new_handle, "restored_locks_held_before": held_before, "restored_locks_held_after": held_after})
+        },
+    }
+}
+
+fn lock_handle_restart(req: &Value) -> Value {
+    let n = req["locks"].as_u64().unwrap_or(1).clamp(1, 4);
+    let dir = std::env::var("VERIF_BUILD").unwrap_or_else(|_| "/verif/.build".into());
+    let dir = std::path::PathBuf::from(dir).join("replay-tmp");
+    let _ = std::fs::create_dir_all(&dir);
+    let file = dir.join(format!("locks-{}-{}.bin", std::process::id(), std::time::SystemTime::now().duration_since(std::time::UNIX_EPOCH).map(|d| d.as_nanos()).unwrap_or(0)));
+    let exe = match std::env::current_exe() { Ok(e) => e, Err(e) => return json!({"error": e.to_string()}) };
+    let run = |phase: &str| -> Value {
+        match std::process::Command::new(&exe).args(["--lock-restart-phase", phase, &file.to_string_lossy(), &n.to_string()]).output() {
+            Ok(o) => serde_json::from_slice(&o.stdout).unwrap_or_else(|_| json!({"error": String::from_utf8_lossy(&o.stderr).to_string()})),
+            Err(e) => json!({"error": e.to_string()}),
+        }
+    };
+    let a = run("A");
+    let b = run("B");
+    let _ = std::fs::remove_file(&file);
+    let old: Vec<u64> = a["handles"].as_array().into_iter().flatten().filter_map(Value::as_u64).collect();
+    let reused = b["new_handle"].as_u64().is_some_and(|h| old.contains(&h));
+    let lost = b["restored_locks_held_before"] != b["restored_locks_held_after"];
+    json!({"first_process": a, "restarted_process": b, "handle_reused": reused, "other_transactions_lock_released": lost, "violates": reused && lost})
+}
+
 pub fn handle(op: &str, req: &Value) -> Option<Value> {
+    if op == "lock_handle_restart" {
+        return Some(lock_handle_restart(req));
+    }
     Some(match op {
         "lock_manager_step" => {
             let lm = build(&req["table"]);
